@@ -107,12 +107,24 @@ Definition crit_acked (ts : list rtask) (oc : list outc) : Prop :=
 Definition crit_acked_l (tg : list (nat * rtask)) (oc : list outc) : Prop :=
   forall i t, In (i, t) tg -> r_crit t = true -> oc_at oc i = Ack.
 
-Lemma existsb_commit_crit tg oc :
-  existsb (fun r : bool * bool => fst r && snd r) (commit tg oc) = false <-> crit_acked_l tg oc.
+(* the executor's message handler, as probed on this run, answers without error only for a task
+   that performed the transition *)
+Lemma executor_faithful_in_source : executor_faithful = true.
+Proof. vm_compute. reflexivity. Qed.
+
+Lemma resp_err_faithful o : executor_faithful = true -> resp_err o = negb (is_ack o).
+Proof. unfold resp_err. intros ->. reflexivity. Qed.
+
+Lemma resp_err_unfaithful o : executor_faithful = false -> resp_err o = false.
+Proof. unfold resp_err. intros ->. reflexivity. Qed.
+
+Lemma existsb_commit_crit tg oc : executor_faithful = true ->
+  (existsb (fun r : bool * bool => fst r && snd r) (commit tg oc) = false <-> crit_acked_l tg oc).
 Proof.
+  intro Hef.
   unfold crit_acked_l, commit. induction tg as [|[j u] tg IH]; cbn [map existsb fst snd].
   - split; [intros _ i t []|reflexivity].
-  - rewrite orb_false_iff, IH. unfold resp_err. split.
+  - rewrite orb_false_iff, IH. rewrite (resp_err_faithful _ Hef). split.
     + intros [H1 H2] i t [E|Hin] Hc.
       * inversion E; subst. rewrite Hc in H1. cbn in H1.
         apply negb_false_iff in H1. apply is_ack_iff. exact H1.
@@ -128,11 +140,11 @@ Qed.
 Lemma roster_intact_in_source : roster_intact = true.
 Proof. vm_compute. reflexivity. Qed.
 
-Lemma cmd_multi tg oc : roster_intact = true -> (2 <= length tg)%nat ->
+Lemma cmd_multi tg oc : roster_intact = true -> executor_faithful = true -> (2 <= length tg)%nat ->
   classify (consolidate (commit tg oc)) = ROk <-> crit_acked_l tg oc.
 Proof.
-  intros Hri Hlen. destruct tg as [|a [|b tg]]; cbn [length] in Hlen; try lia.
-  rewrite <- existsb_commit_crit.
+  intros Hri Hef Hlen. destruct tg as [|a [|b tg]]; cbn [length] in Hlen; try lia.
+  rewrite <- (existsb_commit_crit _ _ Hef).
   remember (a :: b :: tg) as l. unfold consolidate.
   assert (Hc : exists x y r, commit l oc = x :: y :: r).
   { subst l. cbn. eauto. }
@@ -141,20 +153,21 @@ Proof.
 Qed.
 
 (* one target: its own response, classified by its critical trait *)
-Lemma cmd_single i t oc :
+Lemma cmd_single i t oc : executor_faithful = true ->
   classify (consolidate (commit [(i, t)] oc)) = ROk <-> crit_acked_l [(i, t)] oc.
 Proof.
-  rewrite <- existsb_commit_crit. cbn. rewrite orb_false_r.
+  intro Hef. rewrite <- (existsb_commit_crit _ _ Hef).
+  unfold commit. cbn [map consolidate classify existsb fst snd]. rewrite orb_false_r.
   destruct (r_crit t && resp_err (oc_at oc i)); split; intro H; try reflexivity; discriminate.
 Qed.
 
-Lemma classify_commit tg oc : roster_intact = true -> tg <> [] ->
+Lemma classify_commit tg oc : roster_intact = true -> executor_faithful = true -> tg <> [] ->
   classify (consolidate (commit tg oc)) = ROk <-> crit_acked_l tg oc.
 Proof.
-  intros Hri Hne. destruct tg as [|[i t] [|b tg]].
+  intros Hri Hef Hne. destruct tg as [|[i t] [|b tg]].
   - congruence.
-  - apply cmd_single.
-  - apply cmd_multi; [exact Hri|cbn; lia].
+  - apply cmd_single. exact Hef.
+  - apply cmd_multi; [exact Hri|exact Hef|cbn; lia].
 Qed.
 
 (* without that, the error of a critical task among several is tolerated *)
@@ -168,13 +181,40 @@ Proof. destruct r; cbn; split; intro H; try reflexivity; discriminate. Qed.
 
 (* the decision: the command goes through iff every critical commanded task acknowledged; for
    every task list (no target, one target, several) *)
-Lemma cmd_iff_intact ts oc : roster_intact = true ->
+Lemma cmd_iff_given ts oc : roster_intact = true -> executor_faithful = true ->
   (res_ok (cmd_result ts oc) = true <-> crit_acked ts oc).
 Proof.
-  intro Hri. unfold cmd_result, crit_acked. rewrite res_ok_iff.
+  intros Hri Hef. unfold cmd_result, crit_acked. rewrite res_ok_iff.
   destruct (targets ts) as [|p tg] eqn:Et.
   - split; [intros _ i t []|reflexivity].
-  - apply classify_commit; [exact Hri|discriminate].
+  - apply classify_commit; [exact Hri|exact Hef|discriminate].
+Qed.
+
+Lemma cmd_iff_intact ts oc : roster_intact = true ->
+  (res_ok (cmd_result ts oc) = true <-> crit_acked ts oc).
+Proof. intro Hri. exact (cmd_iff_given ts oc Hri executor_faithful_in_source). Qed.
+
+Lemma cmd_iff_faithful ts oc : executor_faithful = true ->
+  (res_ok (cmd_result ts oc) = true <-> crit_acked ts oc).
+Proof. intro Hef. exact (cmd_iff_given ts oc roster_intact_in_source Hef). Qed.
+
+(* when an answer without error proves nothing every command goes through *)
+Lemma existsb_commit_unfaithful tg oc : executor_faithful = false ->
+  existsb (fun r : bool * bool => fst r && snd r) (commit tg oc) = false.
+Proof.
+  intro Hef. unfold commit. induction tg as [|[j u] tg IH]; cbn [map existsb fst snd]; [reflexivity|].
+  rewrite IH, (resp_err_unfaithful _ Hef), andb_false_r. reflexivity.
+Qed.
+
+Lemma cmd_unfaithful ts oc : executor_faithful = false -> res_ok (cmd_result ts oc) = true.
+Proof.
+  intro Hef. unfold cmd_result. destruct (targets ts) as [|[i t] [|b tg]]; [reflexivity| |].
+  - unfold commit. cbn [map consolidate classify fst snd]. rewrite (resp_err_unfaithful _ Hef), andb_false_r. reflexivity.
+  - remember ((i, t) :: b :: tg) as l.
+    assert (Hc : exists x y r, commit l oc = x :: y :: r) by (subst l; cbn; eauto).
+    pose proof (existsb_commit_unfaithful l oc Hef) as He.
+    destruct Hc as (x & y & r & Hc). subst l. rewrite Hc in *. unfold consolidate. cbn [classify].
+    rewrite He, andb_false_r. reflexivity.
 Qed.
 
 Lemma cmd_iff ts oc : res_ok (cmd_result ts oc) = true <-> crit_acked ts oc.
